@@ -1,1 +1,22 @@
 // spec for unit `flag`
+pub open spec fn fid(f: &Flag) -> int { f.0.set.id }
+pub open spec fn wf_flag(f: &Flag, env: &FEnv) -> bool { f.0.wakers.id == f.0.set.id && known(env, f.0.set.id) }
+// futures::future::select(a, b) on two flags: polled in order a then b, ready as soon as one is (ASSUMED contract of the futures crate);
+// its poll is this VERIFIED function, which calls the real Flag::poll on both
+pub struct SelectFut { pub a: Flag, pub b: Flag }
+pub fn select(a: Flag, b: Flag) -> (r: SelectFut) ensures r.a == a, r.b == b { SelectFut { a, b } }
+impl SelectFut {
+    pub fn poll(&mut self, cx: &mut Context, env: &mut FEnv) -> (r: Poll<()>)
+        requires wf_flag(&old(self).a, old(env)), wf_flag(&old(self).b, old(env)),
+        ensures
+            final(env).set == old(env).set, final(env).woken == old(env).woken,
+            r is Ready <==> (old(env).set@[fid(&old(self).a)] || old(env).set@[fid(&old(self).b)]),
+            r is Pending ==> reg_contains(final(env).registered@[fid(&old(self).a)], old(cx).task) && reg_contains(final(env).registered@[fid(&old(self).b)], old(cx).task),
+            forall|g: int, t: int| old(env).registered@.contains_key(g) && reg_contains(old(env).registered@[g], t) ==> final(env).registered@.contains_key(g) && #[trigger] reg_contains(final(env).registered@[g], t),
+            forall|g: int| old(env).registered@.contains_key(g) ==> final(env).registered@.contains_key(g),
+    {
+        let ra = self.a.poll(cx, env);
+        if let Poll::Ready(()) = ra { return Poll::Ready(()); }
+        self.b.poll(cx, env)
+    }
+}
